@@ -5,6 +5,7 @@ import XzVerif.Model.Xz
 import XzVerif.Model.Lzma1
 import XzVerif.Model.ReadLoop
 import XzVerif.Model.Gxz
+import XzVerif.Model.GFlag
 /-
   driver — line protocol around the executable definitions of Spec and Model.
   One request per line on stdin, one reply line on stdout.  Core-only, so it links.
@@ -206,6 +207,24 @@ def handle (line : String) : String :=
       let r := Gxz.run ⟨boolOf dcm, boolOf k, boolOf f, boolOf bi, boolOf bn⟩ ⟨.orig, t0, m0⟩ fault crash
       s!"{fstateName r.fs.inp} {fstateName r.fs.tgt} {fstateName r.fs.tmp} {r.exit}"
     | _, _, _, _ => "bad-op"
+  -- gxzargs <hex(arg)>... → ERR | flags … | operands (hex)
+  | "gxzargs" :: hs =>
+    let args := hs.map (fun h => String.fromUTF8! (unhex h))
+    match GFlag.parse args with
+    | none => "ERR"
+    | some (o, ops) =>
+      let b (x : Bool) := if x then "1" else "0"
+      let fmt := match GFlag.normalizeFormat o with | some f => f | none => "INVALID"
+      s!"help={b o.help} stdout={b o.stdout} decompress={b o.decompress} force={b o.force} keep={b o.keep} license={b o.license} version={b o.version} quiet={o.quiet} verbose={o.verbose} preset={o.preset} format={fmt} |" ++
+        String.join (ops.map (fun a => " " ++ hex a.toUTF8))
+  -- gxzplan <stdout> <decompress> <force> <keep> <fmt> <hex(path)> <plain|xz|lzma> <targetExists> → action
+  | ["gxzplan", so, d, f, k, fmt, ph, c, te] =>
+    let o : GFlag.Opts := { stdout := boolOf so, decompress := boolOf d, force := boolOf f, keep := boolOf k }
+    let content := match c with | "xz" => GFlag.Content.xz | "lzma" => GFlag.Content.lzma | _ => GFlag.Content.plain
+    match GFlag.plan o fmt (String.fromUTF8! (unhex ph)) content (boolOf te) with
+    | .fail => "fail"
+    | .toStdout => "stdout"
+    | .toFile t keep => s!"file {hex t.toUTF8} {if keep then 1 else 0}"
   | ["lzmaops", h] =>
     let r := Lzma1.read 0 (unhex h)
     " ".intercalate (r.ops.toList.map opStr)
